@@ -198,10 +198,11 @@ def run(chk):
         for part in core.parallel_map(_exec_wide, seeds):
             obs += part
         return obs
-    return _stream(jobs, seeds)
+    from .. import suite
+    return _stream(jobs, seeds, suite.suite_rows(pid, chk))
 
 
-def _stream(jobs, seeds):
+def _stream(jobs, seeds, extra=None):
     """thorough tier: execute and hand over the observations in chunks of configurations (bounded memory)"""
     step = 160
     for k in range(0, len(jobs), step):
@@ -213,3 +214,5 @@ def _stream(jobs, seeds):
     for part in core.parallel_map(_exec_wide, seeds):
         obs += part
     yield obs
+    if extra:
+        yield extra            # the repository's own test-suite, traced
